@@ -41,6 +41,8 @@ EXPLANATION = (
     'into it. R8: Interpreter._add_arguments does not store one list object under several languages while stored lists are modified in place. '
     'Functions are analysed in a normal form (private helpers inlined, constant-tuple loops unrolled, conditional-expression assignments and '
     'search loops desugared, enum-keyed constant tables folded per member); anchors are found by role. '
+    'R4e: a return that runs the argv through `meson --internal exe` with options puts the `--` separator right before it. R9: the suffix guard of '
+    'both_libraries covers every per-library-kind `<lang>_*_args` key that is read. R10: CLikeCompilerArgs.to_native deletes collected positions from the back. '
     'R6: a newline in an argument forces the pickled wrapper, which receives the unmodified '
     'serialisation (an information note reports whether environment values placed on the command line by the `env` shortcut are newline-tested; not an obligation). NOT decided: what shlex.quote/cmd_quote produce for a given string,  the behaviour of ninja, /bin/sh, shlex.quote, cmd.exe and compiler response-file parsers.')
 ASSUMPTIONS = ['ninja treats exactly `$`, space, newline (and `:` on build lines) as special and `$x` as escape of x',
@@ -55,7 +57,7 @@ BUILD_SOURCES = ['infilenames', 'outfilenames', 'implicit_outfilenames', 'deps',
 # ---------------------------------------------------------------------------
 # shared helpers
 
-NO_INLINE = {'ninja_quote', '_quoter', 'cmd_quote', 'gcc_rsp_quote', 'quote_func', 'quote_arg', 'strToCommandArg', 'rule_iter'}
+NO_INLINE = {'get_executable_serialisation', 'ninja_quote', '_quoter', 'cmd_quote', 'gcc_rsp_quote', 'quote_func', 'quote_arg', 'strToCommandArg', 'rule_iter'}
 
 
 _NF_CACHE: T.Dict[T.Tuple[str, str, str], ast.AST] = {}
@@ -373,11 +375,57 @@ def _resolve_truth(atom: Atom, val: bool, fl: OFlow) -> T.Tuple[Atom, bool]:
     return atom, val
 
 
+def _record_fields(mod: Module) -> T.Optional[T.List[str]]:
+    """Field names, in positional order, of the record class whose instances NinjaBuildElement stores in self.elems
+    (a NamedTuple / dataclass of this module constructed where self.elems is appended to); None for plain tuples."""
+    names: T.Set[str] = set()
+    for q, f in mod.methods('NinjaBuildElement').items():
+        for c in walk_no_nested(f):
+            if isinstance(c, ast.Call) and isinstance(c.func, ast.Attribute) and c.func.attr == 'append' and attr_chain(c.func.value) == 'self.elems' and len(c.args) == 1 \
+                    and isinstance(c.args[0], ast.Call) and isinstance(c.args[0].func, ast.Name) and mod.has_cls(c.args[0].func.id):
+                names.add(c.args[0].func.id)
+    if len(names) != 1:
+        return None
+    cls = mod.cls(next(iter(names)))
+    fields = [st.target.id for st in cls.body if isinstance(st, ast.AnnAssign) and isinstance(st.target, ast.Name)]
+    return fields or None
+
+
+def _records_to_unpacking(fn: ast.AST, fields: T.List[str]) -> ast.AST:
+    """`for v in self.elems: ... v.<field> ...` -> `for (v__f1, v__f2) in self.elems: ... v__<field> ...` when v is used only through its
+    fields (a record read by field name is the tuple read by position)."""
+    import copy as _copy
+    fn = _copy.deepcopy(fn)
+    for lp in [n for n in ast.walk(fn) if isinstance(n, ast.For) and isinstance(n.target, ast.Name) and attr_chain(n.iter) == 'self.elems']:
+        v = lp.target.id
+        uses = [n for b in lp.body for n in ast.walk(b) if isinstance(n, ast.Name) and n.id == v]
+        attrs = [n for b in lp.body for n in ast.walk(b) if isinstance(n, ast.Attribute) and isinstance(n.value, ast.Name) and n.value.id == v]
+        if len(uses) != len(attrs) or any(a.attr not in fields for a in attrs) or any(isinstance(n.ctx, ast.Store) for n in uses):
+            continue
+
+        class _F(ast.NodeTransformer):
+            def visit_Attribute(self, n: ast.Attribute) -> ast.AST:
+                if isinstance(n.value, ast.Name) and n.value.id == v and n.attr in fields:
+                    return ast.copy_location(ast.Name(id=f'{v}__{n.attr}', ctx=n.ctx), n)
+                self.generic_visit(n)
+                return n
+        lp.body = [_F().visit(b) for b in lp.body]
+        lp.target = ast.copy_location(ast.Tuple(elts=[ast.Name(id=f'{v}__{f_}', ctx=ast.Store()) for f_ in fields], ctx=ast.Store()), lp.target)
+    ast.fix_missing_locations(fn)
+    return fn
+
+
 def _elem_fn(mod: Module) -> ast.AST:
     """NinjaBuildElement.write in normal form; when the value loop is a comprehension (possibly over a per-element helper) it is
     read as the loop it abbreviates and the helper is expanded."""
     qn = 'NinjaBuildElement.write'
     fn = _nfunc(mod, qn)
+    fields = _record_fields(mod)
+    if fields:
+        key0 = (mod.rel, mod.digest, qn + '#records')
+        if key0 not in _NF_CACHE:
+            _NF_CACHE[key0] = _records_to_unpacking(fn, fields)
+        fn = _NF_CACHE[key0]
     fl = OFlow(fn, cut={'ninja_quote'})
     if not any(isinstance(n, ast.For) and 'attr:self.elems[1]' in fl.origins(n.iter) for n in ast.walk(fn)):
         key = (mod.rel, mod.digest, qn + '#loops')
@@ -942,6 +990,8 @@ def _qf_map(ctx: RuleCtx, mod: Module, qn: str, var: str, subjects: T.Set[str], 
                 else:
                     raise Undecided(f'{qn}: no table entry / default for style {m}')
             return out0
+    afl = OFlow(fn)
+    subjects = set(subjects) | {n for n, ds in afl.defs.items() if n not in afl.params and len(ds) == 1 and isinstance(ds[0], ast.AST) and norm(ds[0]) in subjects}
     tab = tables.extract(fn, body=body, effects=_assign_eff, inline=False, name=f'{qn}:{var}')
     preds: T.Dict[Atom, T.Callable[[str], bool]] = {}
     flags: T.List[Atom] = []
@@ -999,6 +1049,9 @@ def r3a(ctx: RuleCtx) -> None:
         o = efl.origins(_expr(a.args[0]))
         return 'attr:self._should_use_rspfile' in o
     elem_map = _qf_map(ctx, mod, 'NinjaBuildElement.write', evar, {'self.rule.rspfile_quote_style'}, members, is_rsp_flag)
+    odd = sorted({str(v) for v in list(rule_map.values()) + list(elem_map.values()) if not (isinstance(v, str) and v.isidentifier())})
+    if odd:
+        raise Undecided(f'the quote function is given by the expression(s) {odd[:2]}, not by a function name the rule can compare')
     for m in members:
         r, e = rule_map[(True, m)], elem_map.get((True, m))
         ctx.require(r == e, f'rsp style {m}: rule quotes rspfile_content with {r}, element quotes values with {e}', mod, 'NinjaBuildElement.write',
@@ -1472,7 +1525,11 @@ def r4b(ctx: RuleCtx) -> None:
 
 def r4c(ctx: RuleCtx) -> None:
     mod = ctx.repo.module(BACKENDS)
-    qn = 'Backend.create_test_serialisation'
+    # the method of Backend that constructs TestSerialisation records (found by role)
+    builders = [q for q, f in mod.methods('Backend').items() if any(isinstance(c, ast.Call) and call_name(c) == 'TestSerialisation' for c in walk_no_nested(f))]
+    if len(builders) != 1:
+        raise Undecided(f'Backend: TestSerialisation is constructed in {builders}')
+    qn = f'Backend.{builders[0]}'
     fn = _nfunc(mod, qn)
     fl = OFlow(fn)
     cls = mod.cls('TestSerialisation')
@@ -2052,7 +2109,8 @@ def r6(ctx: RuleCtx) -> None:
                     f'(no dominating `not {force}` / `{reasons} == [...]` guard)', r.ast)
     # pickle branch dumps the unmodified es
     dumps = [c for c in ast.walk(fn) if isinstance(c, ast.Call) and call_name(c) == 'pickle.dump']
-    ctx.floor(f'{qn}: pickle.dump calls', len(dumps), 1)
+    if not dumps:
+        raise Undecided(f'{qn}: no pickle.dump call in the function or the helpers that could be expanded (the serialisation is written elsewhere)')
     muts = [st for st in ast.walk(fn) if (isinstance(st, (ast.Assign, ast.AugAssign)) and any(isinstance(t, (ast.Attribute, ast.Subscript)) and norm(t).startswith(es + '.') and 'cmd_args' in norm(t)
                                                                                                 for t in (st.targets if isinstance(st, ast.Assign) else [st.target])))
             or (isinstance(st, ast.Call) and isinstance(st.func, ast.Attribute) and norm(st.func.value) == f'{es}.cmd_args' and st.func.attr in
@@ -2062,7 +2120,8 @@ def r6(ctx: RuleCtx) -> None:
         ctx.require(isinstance(dobj, ast.Name) and dobj.id == es and not muts, f'{qn}: {short(d)} dumps the unmodified serialisation', mod, qn,
                     f'{norm(d)} / mutations {[norm(m) for m in muts]}', f'{short(d)} does not dump the serialisation `{es}` as returned by get_executable_serialisation '
                     f'(mutations: {[short(m) for m in muts]})', d)
-    ctx.floor(f'{qn}: pickled-wrapper returns', len(pickled), 1)
+    if not pickled:
+        raise Undecided(f'{qn}: no return that names the pickled file (`--unpickle`) found')
     # the serialisation is built from exe followed by cmd_args
     call = fl.defs[es][0]
     cmd_e = call.args[0] if call.args else kwarg(call, 'cmd')   # type: ignore[attr-defined]
@@ -2631,6 +2690,159 @@ def r5d(ctx: RuleCtx) -> None:
                       '(witness: generator argument `x@OUTPUT01@` -> `meson setup` hangs in replace_outputs)', reps[0])
 
 
+# ---------------------------------------------------------------------------
+# R4e  `meson --internal exe [--capture F] [--feed F] -- <argv>`: the `--` separator precedes the wrapped argv
+
+def _words(e: ast.AST, fl: OFlow, depth: int = 0) -> T.List[str]:
+    """A list expression as words: constants by repr, whole sub-lists as `*<expr>` (displays, `+`, copies, single-definition locals)."""
+    e = _uncopy(e)
+    if isinstance(e, ast.BinOp) and isinstance(e.op, ast.Add):
+        return _words(e.left, fl, depth) + _words(e.right, fl, depth)
+    if isinstance(e, (ast.List, ast.Tuple)):
+        out: T.List[str] = []
+        for x in e.elts:
+            out += _words(x.value, fl, depth) if isinstance(x, ast.Starred) else [repr(x.value) if isinstance(x, ast.Constant) else norm(x)]
+        return out
+    if isinstance(e, ast.Name) and e.id not in fl.params and len(fl.defs.get(e.id, [])) == 1 and depth < 4 and isinstance(fl.defs[e.id][0], ast.AST):
+        return _words(fl.defs[e.id][0], fl, depth + 1)
+    return ['*' + norm(e)]
+
+
+def r4e(ctx: RuleCtx) -> None:
+    R = _R6(ctx)
+    mod, qn, fl, es = R.mod, R.qn, R.fl, R.es
+    direct, _ = R.returns()
+    n = 0
+    for r in direct:
+        v = r.ast.value
+        first = v.elts[0] if isinstance(v, ast.Tuple) and v.elts else v
+        w = _words(first, fl)
+        tail = f'*{es}.cmd_args'
+        if repr('--internal') not in w or repr('exe') not in w or tail not in w:
+            continue          # not run through meson_exe's option parser
+        n += 1
+        k = w.index(tail)
+        prev = w[k - 1] if k > 0 else ''
+        if prev == repr('--'):
+            ctx.ok(f'{qn}: `{short(r.ast, 50)}`: the wrapped argv follows the `--` separator')
+        elif prev.startswith("'") or prev.startswith('*'):
+            if prev.startswith('*'):
+                # a sub-list: read it - a local accumulated from displays only; does its last possible word equal `--`?
+                nm = prev[1:]
+                ds = fl.defs.get(nm, []) if nm.isidentifier() else []
+                disp = [d for d in ds if isinstance(d, (ast.List, ast.Tuple))]
+                if not ds or len(disp) != len(ds):
+                    raise Undecided(f'{qn}: cannot read the words of `{nm}` that precede the wrapped argv in {short(first, 80)}')
+                if any(isinstance(x, ast.Constant) and x.value == '--' for d in disp for x in d.elts):
+                    raise Undecided(f'{qn}: `{nm}` may or may not end with `--` before the wrapped argv')
+            ctx.violation(mod, qn, f'{norm(first)}',
+                          f'`{short(first, 90)}` runs the command through `meson --internal exe` without the `--` separator right before the wrapped argv '
+                          f'(it follows {prev}): meson_exe parses its own options with parse_known_args, so user arguments such as `--capture`, `--feed`, `-h` '
+                          'or their abbreviations are consumed by the wrapper', r.ast)
+        else:
+            raise Undecided(f'{qn}: cannot read what precedes the wrapped argv in {short(first, 80)}')
+    if n == 0:
+        raise Undecided(f'{qn}: no return that runs the argv through `meson --internal exe` with options found')
+
+
+# ---------------------------------------------------------------------------
+# R9  both_libraries(): the "do not reuse objects" guard covers every per-library-kind argument key that is read
+
+def r9(ctx: RuleCtx) -> None:
+    mod = ctx.repo.module(INTERP)
+    cls = 'Interpreter'
+    meths = mod.methods(cls)
+    tails: T.Dict[str, str] = {}
+    for q, f in meths.items():
+        for c in walk_no_nested(f):
+            if isinstance(c, ast.Call) and isinstance(c.func, ast.Attribute) and c.func.attr.endswith('convert_file_args') and c.args:
+                a = c.args[0]
+                key = a.args[0] if isinstance(a, ast.Call) and isinstance(a.func, ast.Attribute) and a.func.attr == 'get' and a.args else (a.slice if isinstance(a, ast.Subscript) else None)
+                if isinstance(key, ast.JoinedStr) and key.values and isinstance(key.values[-1], ast.Constant) and isinstance(key.values[-1].value, str):
+                    tails[key.values[-1].value] = q
+    if not tails:
+        raise Undecided(f'{cls}: no per-language argument keys (f-string keys given to the file-argument converter) found')
+    common = min(tails, key=len)
+    kinds = {t: q for t, q in tails.items() if t != common}
+    if not kinds:
+        raise Undecided(f'{cls}: only the plain `{common}` keys are read')
+    guards = []
+    for q, f in meths.items():
+        for c in walk_no_nested(f):
+            if isinstance(c, ast.Call) and isinstance(c.func, ast.Attribute) and c.func.attr == 'endswith' and len(c.args) == 1 and isinstance(c.func.value, ast.Name):
+                try:
+                    val = fold_expr(ctx.repo, mod, c.args[0])
+                except Exception:
+                    continue
+                sfx = [val] if isinstance(val, str) else (list(val) if isinstance(val, (tuple, list)) and all(isinstance(x, str) for x in val) else None)
+                if sfx and any(t.endswith(x) or x.endswith(t.lstrip('_')) for t in kinds for x in sfx) or (sfx and any('args' in x for x in sfx) and q.endswith('both_libraries')):
+                    guards.append((q, c, sfx))
+    if len(guards) != 1:
+        raise Undecided(f'{cls}: {len(guards)} suffix tests on keyword names that concern {sorted(kinds)}')
+    q, c, sfx = guards[0]
+    for t, reader in sorted(kinds.items()):
+        ctx.require(any(t.endswith(x) for x in sfx), f'{cls}.{q}: the suffix test {sfx} covers the `<lang>{t}` keys read by {reader}', mod, f'{cls}.{q}', f'{norm(c)} vs {t}',
+                    f'{reader} reads the per-library arguments `<lang>{t}`, but the guard {short(c, 70)} of {q} (folded suffixes {sfx}) matches no such key: '
+                    'object files of the shared library are reused for the static one and the static-only arguments reach no compiler process', c)
+
+
+# ---------------------------------------------------------------------------
+# R10  deleting collected positions from an argument list goes from the back
+
+def r10(ctx: RuleCtx) -> None:
+    rel = 'mesonbuild/compilers/mixins/clike.py'
+    mod = ctx.repo.module(rel)
+    qn = 'CLikeCompilerArgs.to_native'
+    fn = _nfunc(mod, qn)
+    fl = OFlow(fn)
+    n = 0
+    for lp in [x for x in ast.walk(fn) if isinstance(x, ast.For) and isinstance(x.target, ast.Name)]:
+        pops = [c for b in lp.body for c in ast.walk(b) if isinstance(c, ast.Call) and isinstance(c.func, ast.Attribute) and c.func.attr == 'pop' and len(c.args) == 1
+                and norm(c.args[0]) == lp.target.id]
+        dels = [d for b in lp.body for d in ast.walk(b) if isinstance(d, ast.Delete) and any(isinstance(t, ast.Subscript) and norm(t.slice) == lp.target.id for t in d.targets)]
+        if not pops and not dels:
+            continue
+        n += 1
+        it = lp.iter
+        src = it
+        desc = None
+        if isinstance(it, ast.Call) and call_name(it) == 'reversed' and len(it.args) == 1:
+            desc, src = True, it.args[0]
+        elif isinstance(it, ast.Call) and call_name(it) == 'sorted' and it.args:
+            rv = kwarg(it, 'reverse')
+            desc, src = (isinstance(rv, ast.Constant) and rv.value is True), it.args[0]
+        elif isinstance(it, ast.Subscript) and isinstance(it.slice, ast.Slice) and isinstance(it.slice.step, ast.UnaryOp) and norm(it.slice.step) == '-1' \
+                and it.slice.lower is None and it.slice.upper is None:
+            desc, src = True, it.value
+        elif isinstance(it, ast.Name) or (isinstance(it, ast.Call) and isinstance(it.func, ast.Attribute) and isinstance(it.func.value, ast.Name)
+                                          and it.func.value.id == 'self' and mod.has_func(f'CLikeCompilerArgs.{it.func.attr}')):
+            desc = False          # the collected list itself, in collection order
+        if desc is None:
+            raise Undecided(f'{qn}: positions are deleted while iterating {short(it)}, an order the rule cannot read')
+        inner = _uncopy(src.args[0]) if isinstance(src, ast.Call) and call_name(src) in ('set', 'list', 'sorted') and src.args else _uncopy(src)
+        dfl = fl
+        if isinstance(inner, ast.Call) and isinstance(inner.func, ast.Attribute) and isinstance(inner.func.value, ast.Name) and inner.func.value.id == 'self' \
+                and mod.has_func(f'CLikeCompilerArgs.{inner.func.attr}'):
+            # the positions are collected by a helper of the class: read the list it returns
+            h = mod.func(f'CLikeCompilerArgs.{inner.func.attr}')
+            rets = [st.value for st in walk_no_nested(h) if isinstance(st, ast.Return) and st.value is not None]
+            if len(rets) == 1 and isinstance(_uncopy(rets[0]), ast.Name):
+                inner, dfl = _uncopy(rets[0]), OFlow(h)
+        if not isinstance(inner, ast.Name):
+            raise Undecided(f'{qn}: positions come from {short(src)}')
+        # the positions were collected in ascending order (from an enumerate()/range() loop variable, possibly +1)
+        asc = bool(dfl.defs.get(inner.id)) and all(isinstance(d, (ast.List, ast.Tuple, ast.BinOp, ast.Name, ast.Constant)) for d in dfl.defs.get(inner.id, []))
+        if not asc:
+            raise Undecided(f'{qn}: cannot see how the positions in {inner.id} are collected')
+        if call_name(it) == 'sorted' or desc:
+            pass
+        ctx.require(bool(desc), f'{qn}: positions in {inner.id} are deleted from the back ({short(it)})', mod, qn, f'for {lp.target.id} in {norm(it)}: pop',
+                    f'the positions collected in {inner.id} (ascending) are deleted while iterating {short(it)}, i.e. front to back: every deletion shifts the later '
+                    'positions by one, so an argument that follows a filtered entry is dropped and the entry (or its operand) stays', lp)
+    if n == 0:
+        raise Undecided(f'{qn}: no loop that deletes collected positions found')
+
+
 RULES = [
     Rule('C03.R1a', 'build statements: every value passes ninja_quote (and qf unless raw / &&)', r1a),
     Rule('C03.R1b', 'rules: command/args only through _quoter; _quoter table; shell vs rsp quoter', r1b),
@@ -2650,5 +2862,8 @@ RULES = [
     Rule('C03.R4d', 'meson --internal <script>: the script arguments are a tail of the process argv itself', r4d),
     Rule('C03.R8b', 'lists kept by the interpreter are owned: helpers do not hand back their argument list', r8b),
     Rule('C03.R5d', 'generator @OUTPUTn@ loop replaces the text it matched (terminates for every spelling)', r5d),
+    Rule('C03.R4e', 'exe wrapper: `--` separates the wrapper options from the wrapped argv', r4e),
+    Rule('C03.R9', 'both_libraries: the reuse-objects guard covers the per-library argument keys that are read', r9),
+    Rule('C03.R10', 'compiler args: collected positions are deleted from the back', r10),
     Rule('C03.R6', 'newline in an argument forces the pickled wrapper with the unmodified serialisation', r6),
 ]
